@@ -141,6 +141,15 @@ func runC05(c *eng.Ctx) {
 		fn := pub.Parent()
 		v, how := storedValue(pub)
 		var seqDesc string
+		var same []ssa.Value
+		isSeq := func(x ssa.Value) bool {
+			for _, y := range same {
+				if x == y {
+					return true
+				}
+			}
+			return false
+		}
 		switch how {
 		case "Inc":
 			seqDesc = ""
@@ -149,6 +158,31 @@ func runC05(c *eng.Ctx) {
 			n, ok := eng.ConstInt(v)
 			c.Check(ok && n == 1, "publish", pub, fn, "sequence advanced by exactly one", "Add with a value other than the constant 1")
 		default:
+			// the publication written in a helper that is handed the sequence: judged on the value its one caller passes
+			same = []ssa.Value{v}
+			for hop := 0; hop < 3; hop++ {
+				pa, isP := eng.Unwrap(v).(*ssa.Parameter)
+				if !isP {
+					break
+				}
+				callers := p.StaticCallers(pa.Parent())
+				if len(callers) != 1 {
+					break
+				}
+				cl, isCall := callers[0].Instr.(*ssa.Call)
+				idx := -1
+				for i, q := range pa.Parent().Params {
+					if q == pa {
+						idx = i
+					}
+				}
+				if !isCall || idx < 0 || idx >= len(cl.Call.Args) {
+					break
+				}
+				v = cl.Call.Args[idx]
+				fn = cl.Parent()
+				same = append(same, v)
+			}
 			d := p.Desc(v)
 			seqDesc = d
 			okd := strings.HasSuffix(d, ".appendedSeq+1)") && strings.HasPrefix(d, "(") || strings.HasPrefix(d, "(1+") && strings.HasSuffix(d, ".appendedSeq)")
@@ -179,13 +213,13 @@ func runC05(c *eng.Ctx) {
 			// index slot and meta value computed from the same value
 			for i, s := range p.Sites(fn, invokeOn(".indexPage", "PutUint64", "PutUint32")) {
 				args := eng.CallArgs(s.Instr.(*ssa.Call))
-				dep := eng.DependsOn(args[1], func(x ssa.Value) bool { return x == v })
+				dep := eng.DependsOn(args[1], isSeq)
 				c.Check(dep, fmt.Sprintf("index-slot-from-seq[%d]", i), s.Instr, fn,
 					"the index slot written is computed from the very sequence value that is published", "offset is "+p.Desc(args[1]))
 			}
 			for i, s := range p.Sites(fn, invokeOn(".metaPage", "PutUint64")) {
 				args := eng.CallArgs(s.Instr.(*ssa.Call))
-				dep := eng.DependsOn(args[0], func(x ssa.Value) bool { return x == v })
+				dep := eng.DependsOn(args[0], isSeq)
 				c.Check(dep, fmt.Sprintf("meta-value-is-seq[%d]", i), s.Instr, fn,
 					"the appended sequence persisted in the meta page is the value that is published", "value is "+p.Desc(args[0]))
 			}
